@@ -1,17 +1,34 @@
 package checks
 
 import (
+	"strings"
+
 	"verif/harness/exec"
 	"verif/harness/model"
 )
 
 // findingOwner maps a finding id to the property it is listed under.
 var findingOwner = map[string]string{
-	"F-C07a": "C07",
+	"F-C07a":  "C07",
+	"F-C16-1": "C16",
+	"F-C16-3": "C16",
 }
 
 // classifyV1 maps an observation that differs from the specification to the listed finding
 // whose signature it matches; "" if none does.
 func classifyV1(v *exec.Violation, b *model.Behaviour, c exec.Config) string {
+	// F-C16-3: rollback across the legacy boundary at a small flush threshold fails with "Value missing"
+	if v.Class == "lvfo" && strings.Contains(v.Observed, "Value missing for key") && v.Step >= 0 && v.Step < len(b.Steps) {
+		boundary := int64(0)
+		for _, s := range b.Steps[:v.Step] {
+			if s.Op == "migrate" {
+				boundary = s.Ret.Ver
+			}
+		}
+		t := b.Steps[v.Step].Args.T
+		if boundary != 0 && t <= boundary-2 && c.Flush < 100000 {
+			return "F-C16-3"
+		}
+	}
 	return ""
 }
